@@ -442,6 +442,7 @@ func (s *Sim) doImport(e *exported) {
 	s.orc.memByCCID = map[uint64]*memView{}
 	s.orc.commitTerm = map[uint64]commitRec{} // the repaired shard starts a new history at the export
 	s.orc.commitSeen = map[int][2]uint64{}
+	s.orc.campaigns = nil
 	s.orc.everRemoved = map[uint64]uint64{}
 	for i := range s.orc.lastMem {
 		s.orc.lastMem[i] = nil
